@@ -16,6 +16,13 @@ CHECKS = {
             'equal injected data. Exploration only: no claim beyond the generated cases.',
             'numpy/astropy arithmetic trusted; df >= 4096 ulp(fch1) (the property\'s realistic-ratio domain); exact half-channel ties excluded and counted',
             'DESIGN.md 3/C05'),
+    'C18': ('exploration',
+            'model-based stateful testing: generated op-lists applied in lock-step to the cadence and a plain list model, invariant after every op',
+            'Generated histories of list operations over compatible, incompatible and non-frame objects are run '
+            'against Cadence/OrderedCadence and a Python-list reference model; identity, order, rejection without '
+            'side effect, order labels, by_label and aggregate properties are compared after every operation.',
+            'Python list semantics are the model; tuples/empty index lists/slice assignment not generated; set_order only with long-enough orders',
+            'DESIGN.md 3/C18'),
 }
 
 ALL = [f'C{i:02d}' for i in range(1, 21)]
